@@ -383,6 +383,16 @@ func (m *natmap) Close() error {
 	return err
 }
 
+// addrWithoutZone returns the address as a string, dropping any IPv6 zone. A zone only has
+// meaning on this host and cannot be represented in a SOCKS IP address; with it the address
+// would be encoded as a (much longer) domain name.
+func addrWithoutZone(addr net.Addr) string {
+	if udpAddr, ok := addr.(*net.UDPAddr); ok && udpAddr != nil && udpAddr.Zone != "" {
+		return (&net.UDPAddr{IP: udpAddr.IP, Port: udpAddr.Port}).String()
+	}
+	return addr.String()
+}
+
 // Get the maximum length of the shadowsocks address header by parsing
 // and serializing an IPv6 address from the example range.
 var maxAddrLen int = len(socks.ParseAddr("[2001:db8::1]:12345"))
@@ -422,7 +432,11 @@ func timedCopy(clientAddr net.Addr, clientConn net.PacketConn, targetConn *natco
 			}
 
 			debugUDPAddr(l, "Got response.", clientAddr, slog.Any("target", raddr))
-			srcAddr := socks.ParseAddr(raddr.String())
+			srcAddr := socks.ParseAddr(addrWithoutZone(raddr))
+			if len(srcAddr) > maxAddrLen {
+				// The header space in `pkt` is sized for an IP address.
+				return onet.NewConnectionError("ERR_CONVERT_ADDRESS", "Failed to convert target address", nil)
+			}
 			addrStart := bodyStart - len(srcAddr)
 			// `plainTextBuf` concatenates the SOCKS address and body:
 			// [padding?][salt][address][body][tag][unused]
